@@ -113,10 +113,48 @@ def run_spawned_case(case, ctx, mon):
         P.cleanup_spawned(out)
 
 
+def run_spawned_kill_case(case, ctx, mon):
+    """A worker of a real run is killed (SIGKILL) half way through one item.  C08 speaks about what parallel_add RETURNS: if it returns
+    at all after that, the result must still account for every item exactly once (the unchanged library raises instead, which C19
+    requires and which leaves nothing for C08 to judge).  Round 8, seed C08-N: dead workers silently replaced."""
+    combo = tuple(case["combo"])
+    out = P.run_spawned(case, timeout_s=case.get("timeout", 600))
+    det = dict(n_workers=case["n_workers"], combo=list(combo), wall=round(out["wall"], 1), killed_item=case["lethal"])
+    try:
+        if out["timed_out"]:
+            mon.inconclusive.append("spawned run with a killed worker exceeded its budget")
+            return
+        r = out["result"]
+        if r is None or r.get("outcome") != "returned":
+            mon.count("killed_worker_runs_that_raised")
+            mon.seen("killed_worker_exception", ((r or {}).get("exc") or "")[:60])
+            mon.nontrivial(True)
+            return
+        mon.count("killed_worker_runs_that_returned")
+        s = sk()
+        loaders = {"cms": s.countmin.load, "hh": s.HeavyHitters.load, "hll": s.HyperLogLog.load}
+        sketches = {name: loaders[name](f) for name, f in zip(combo, r["files"])}
+        whole = [dict(it, mark=None) for it in case["items"]]  # every item, the one being processed at the kill included
+        P.check_result(mon, sketches, combo, case["args"], whole, dict(det, after="a worker was killed and parallel_add returned all the same"))
+        mon.nontrivial(True)
+    finally:
+        P.cleanup_spawned(out)
+
+
 def gen_cases(ctx):
     rng = ctx.rng("cases")
     q = ctx.quick
     sh, ns = ctx.shard, ctx.nshards
+    if q or sh in (1, 2):
+        keys = key_family(rng, 8, 0, 8)
+        nw = 1 if (q or sh == 1) else 2
+        items = P.gen_items(rng, 6, keys, marks={3: "exit"}, sleep=False)
+        items[3]["how"] = "sigkill"
+        for it in items:
+            it["keys"] = it["keys"] or [[hx(keys[0]), 2]]
+            it["records"] = max(1, min(int(it["records"]), 3))
+        yield {"type": "spawned_kill", "items": items, "n_workers": nw, "combo": ["cms", "hh", "hll"], "args": P.gen_args(rng, ("cms", "hh", "hll"), "linear"),
+               "lethal": 3, "timeout": 600, "item_kind": "dict"}
     # --- real spawned runs first (they are the slow part; shard 0..k each take one)
     spawn_plan = [(2, ("cms", "hh", "hll"), False), (3, ("cms", "hll"), True)] if q else \
         [(1, ("cms", "hh", "hll"), False), (2, ("cms", "hh", "hll"), True), (3, ("cms", "hh", "hll"), False), (5, ("cms", "hh", "hll"), False),
@@ -199,6 +237,8 @@ def run_case(case, ctx, mon):
         run_inproc_case(case, ctx, mon)
         if "exhaustive" in case:
             mon.count(f"exhaustive_schedules:{case['exhaustive'][0]}x{case['exhaustive'][1]}")
+    elif case["type"] == "spawned_kill":
+        run_spawned_kill_case(case, ctx, mon)
     else:
         run_spawned_case(case, ctx, mon)
 
